@@ -246,6 +246,20 @@ def e2_corpus_files(tier, seed):
         p = os.path.join(wd, 'cur_%s.kiki' % name)
         open(p, 'w', encoding='utf8').write(txt)
         out.append(('cur_' + name, p))
+    # seeded samples of the exhaustive tiny tier and of the epsilon-chain family (payload P, all fields used)
+    rng = random.Random(seed + 23)
+    tiny = corpus_mod.tiny_exhaustive()
+    fam = corpus_mod.eps_chain_family()
+    picks = rng.sample(tiny, 80 if tier == 'quick' else 600) + rng.sample(fam, 24 if tier == 'quick' else len(fam))
+    pstyle = dict(fieldset='tuple', skip='none', single='enum', payload='crate::payload::P')
+    for name, exp, nts, rules in picks:
+        g = corpus_mod.build(name, nts, rules, pstyle)
+        if not g.terminals:
+            continue
+        txt = re.sub(r'\bS\b', 'Sx', render(g))
+        p = os.path.join(wd, name + '.kiki')
+        open(p, 'w', encoding='utf8').write(txt)
+        out.append((name, p))
     return out
 
 
@@ -307,8 +321,11 @@ def e2_over(artefacts, lengths_of, R, prop, tier, wd):
 
 def corpus_artefacts(tier, R):
     arts = []
-    for name, path in e2_corpus_files(tier, common.seed()):
-        A, err = corpus_artefact(name, path)
+    files = e2_corpus_files(tier, common.seed())
+    common.build_kgen()
+    with ThreadPoolExecutor(max_workers=common.NCPU) as ex:
+        res = list(ex.map(lambda nf: corpus_artefact(nf[0], nf[1]), files))
+    for (name, path), (A, err) in zip(files, res):
         if A is None:
             if err is not None:
                 R.inconclusive.append('E2 corpus %s: %s' % (name, err))
